@@ -270,8 +270,9 @@ fn real_main() {
                 n_obl += 1;
                 emit(&o.role, o.kind, o.theory, &o.assume, &o.claim, o.fp_bound, &o.detail, &mut out);
             }
-            if pi < 1 {
-                // vacuity witness: path condition and assumptions of this path must be satisfiable (expected `sat`)
+            let np = paths.len();
+            if pi == 0 || pi + 1 == np || pi == np / 2 || pi == np / 4 || pi == (3 * np) / 4 {
+                // vacuity witness (a spread of up to five paths per case: single paths may be infeasible by transitivity): path condition and assumptions of this path must be satisfiable (expected `sat`)
                 emit("witness", "witness", Th::Real, &ctx.assumes, &B::True.not(), None, "path condition and assumptions are satisfiable", &mut out);
             }
             if let Err(msg) = r {
